@@ -256,6 +256,12 @@ def run(repo, gen):
                 if rv is not None:
                     ring_out.append("  Definition ring_%s (%s : K) : K := %s." % (ident, " ".join(rv[0]), rv[1]))
     out.append("")
+    names = [l.split()[1] for l in out if l.startswith("Definition ")]
+    out.append("(* every generated rule, for `autounfold with genrules` *)")
+    out.append("Create HintDb genrules.")
+    for i in range(0, len(names), 8):
+        out.append("#[global] Hint Unfold %s : genrules." % " ".join(names[i:i + 8]))
+    out.append("")
     out.append("(* the rule table: (mode, primitive, argnum, how the rule is wrapped) *)")
     out.append("Definition rule_table : list (string * string * Z * string) := [")
     out.append(";\n".join('  ("%s", "%s", (%d)%%Z, "%s")' % t for t in table))
